@@ -28,6 +28,12 @@ PROGRAMS = [
     ("many-references", {"main.oal": "let @a = { 'x @b, 'y @c, 'z @d };\nlet @b = { 'p num };\nlet @c = [@d];\nlet @d = { 'q @a };\nres / on get -> <@a> :: <status=404, @c>;\n"}),
     ("many-ranges-and-methods", {"main.oal": 'res /r on get, put, patch, delete -> <status=200, media="a/x", {}> :: <status=200, media="b/y", num> :: <status=404, str> :: <status=5XX, {}> :: <>;\n'}),
     ("rec-in-functions", {"main.oal": "let f x = rec r { 'v x, 'next [r] };\nres / on get -> <{ 'a f num, 'b f str, 'c f { 'k num } }>;\n"}),
+    ("many-headers-params-tags", {"main.oal": "let h1 = 'ETag! str;\nlet h2 = 'X-Rate-Limit int;\nlet h3 = 'X-Rate-Reset int;\nlet h4 = 'Retry-After int;\n"
+                                      "# tags: [alpha, beta, gamma, delta], summary: \"s\"\nlet op = get, put { 'q1 str, 'q2! int, 'q3 bool, 'q4 num } : <headers={ 'If-Match str, 'If-None-Match str, 'X-A str }, {}> "
+                                      "-> <status=200, headers={ h1, h2, h3, h4 }, { 'a! num, 'b! str, 'c! bool, 'd! int, 'e num }> :: <status=404, headers={ h2, h3, h4 }, {}>;\n"
+                                      "res /things/{ 'id int }/{ 'sub str }?{ 'p1 str, 'p2 int, 'p3 bool } on op;\nres /other on get -> <{}>;\nres /third on get -> <{}>;\nres /fourth on get -> <{}>;\n"}),
+    ("enums-and-facets", {"main.oal": "let color = str `enum: [red, green, blue, black], pattern: \"^[a-z]+$\", minLength: 3, maxLength: 5`;\nlet n = num `minimum: 0, maximum: 9.5, multipleOf: 0.5, example: 2`;\n"
+                              "let @pal = { 'c1! color, 'c2! color, 'c3! color, 'n n } `title: \"t\", description: \"d\"`;\nres /pal on get -> <@pal> `description: \"palette\"`;\n"}),
     ("two-modules", {"main.oal": 'use "m.oal";\nuse "n.oal" as q;\n# examples: { m1: "1", m2: "2", m3: "3" }\nlet @top = { \'t t, \'u q.u };\nres / on get -> <@top>;\n',
                      "m.oal": "let t = rec x { 'kids [x] };\n", "n.oal": '# examples: { n1: "1", n2: "2", n3: "3" }\nlet @u = { \'w num };\n'}),
 ]
